@@ -382,3 +382,269 @@ def flag_matrix(tables, seed=1):
                     h.op(f"destroy @{k} @{o}")
     h.op("fini")
     return h.text()
+
+
+# ---------------------------------------------------------------------------------------------------------
+# cryptographic operations: automaton + output-length protocol (C12), start conditions (C07)
+# ---------------------------------------------------------------------------------------------------------
+P256 = "06082a8648ce3d030107"
+ED25519 = "06032b6570"
+SYM = {  # mech: (key kind, block size, param maker)
+    0x1081: ("aes", 16, lambda r: ""), 0x1082: ("aes", 16, lambda r: ":" + "00" * 16), 0x1085: ("aes", 16, lambda r: ":" + "11" * 16),
+    0x1086: ("aes", 16, lambda r: ":ctr(%d,%s)" % (r.choice([128, 32, 8, 4]), r.choice(["00" * 16, "ff" * 16, "00" * 15 + "fe"]))),
+    0x1087: ("aes", 16, lambda r: ":gcm(%s,%s,%d)" % ("ab" * r.choice([12, 12, 16, 1]), r.choice(["", "aa" * 5]), r.choice([128, 128, 96, 64]))),
+    0x132: ("des3", 8, lambda r: ""), 0x133: ("des3", 8, lambda r: ":" + "22" * 8), 0x136: ("des3", 8, lambda r: ":" + "33" * 8),
+}
+MACS = {0x251: "hmac", 0x221: "hmac", 0x271: "hmac", 0x108A: "aes", 0x138: "des3"}
+DIGESTS = [0x220, 0x250, 0x260, 0x270, 0x255]
+
+
+class OpsGen(History):
+    def setup_keys(self, k, t, rsa=True, ec=True):
+        U = ul
+        keys = {}
+        flags = "104=01 105=01 108=01 10a=01 106=01 107=01 162=01 103=00"
+        keys["aes"] = self.op(f"create @{k} 0={U(4)} 100={U(0x1f)} 3={hx(self.new_label())} 11={'0f' * 16} {flags}"); self.minted += 1
+        keys["aes256"] = self.op(f"create @{k} 0={U(4)} 100={U(0x1f)} 3={hx(self.new_label())} 11={'1e' * 32} {flags}"); self.minted += 1
+        keys["des3"] = self.op(f"create @{k} 0={U(4)} 100={U(0x15)} 3={hx(self.new_label())} 11={'0123456789abcdef' * 3} {flags}"); self.minted += 1
+        keys["hmac"] = self.op(f"create @{k} 0={U(4)} 100={U(0x10)} 3={hx(self.new_label())} 11={'5a' * 64} {flags}"); self.minted += 1
+        keys["aes_nouse"] = self.op(f"create @{k} 0={U(4)} 100={U(0x1f)} 3={hx(self.new_label())} 11={'0f' * 16} 104=00 105=00 108=00 10a=00"); self.minted += 1
+        keys["aes_gen"] = self.op(f"genkey @{k} 1080 3={hx(self.new_label())} 161={U(16)} 104=01 105=01 108=01 10a=01"); self.minted += 1
+        if rsa:
+            keys["rsa"] = self.op(f"genpair @{k} 0 121={U(1024)} 122=010001 3={hx(self.new_label())} 10a=01 104=01 106=01 / 3={hx(self.new_label())} 108=01 105=01 107=01 2=01"); self.minted += 2
+        if ec:
+            keys["ec"] = self.op(f"genpair @{k} 1040 180={P256} 3={hx(self.new_label())} 10a=01 / 3={hx(self.new_label())} 108=01 2=01"); self.minted += 2
+            keys["ed"] = self.op(f"genpair @{k} 1055 180={ED25519} 3={hx(self.new_label())} 10a=01 / 3={hx(self.new_label())} 108=01 2=01"); self.minted += 2
+        return keys
+
+
+def data_hex(rng, n):
+    return bytes(rng.randrange(256) for _ in range(n)).hex() or "."
+
+
+def ops_history(seed, nops=60, rsa=True):
+    rng = random.Random(seed)
+    h = OpsGen(rng)
+    h.prologue(1)
+    t = h.toks[0]
+    k1 = h.open(t, True); h.login(k1, t, 'user'); k2 = h.open(t, True)
+    keys = h.setup_keys(k1, t, rsa=rsa)
+    caps = lambda need: rng.choice(["n", "0", str(max(0, need - 1)), str(need), str(need + 1), str(need + 40), "300", "300"])
+    lens = [0, 1, 7, 8, 15, 16, 17, 24, 31, 32, 33, 48, 64, 65]
+    for _ in range(nops):
+        k = rng.choice([k1, k1, k2])
+        r = rng.random()
+        if r < 0.45:        # symmetric cipher
+            mech = rng.choice(list(SYM))
+            kind, bs, pm = SYM[mech]
+            key = keys[rng.choice(["aes", "aes256", "aes_gen"]) if kind == "aes" else "des3"]
+            if rng.random() < 0.06: key = keys[rng.choice(list(keys))]; key = f"{key}" 
+            enc = rng.random() < 0.55
+            h.op(f"{'encinit' if enc else 'decinit'} @{k} {mech:x}{pm(rng)} @{key}")
+            pre = "enc" if enc else "dec"
+            if rng.random() < 0.4:
+                n = rng.choice(lens)
+                for _ in range(rng.randrange(1, 4)):
+                    h.op(f"{pre} @{k} {data_hex(rng, n)} {caps(n + bs)}")
+            else:
+                for _ in range(rng.randrange(0, 5)):
+                    n = rng.choice(lens)
+                    h.op(f"{pre}upd @{k} {data_hex(rng, n)} {caps(n + bs)}")
+                for _ in range(rng.randrange(1, 4)):
+                    h.op(f"{pre}final @{k} {caps(bs)}")
+        elif r < 0.60:      # MAC
+            mech = rng.choice(list(MACS)); key = keys[MACS[mech]]
+            sgn = rng.random() < 0.7
+            h.op(f"{'siginit' if sgn else 'verinit'} @{k} {mech:x} @{key}")
+            if sgn:
+                if rng.random() < 0.5:
+                    for _ in range(rng.randrange(1, 3)): h.op(f"sign @{k} {data_hex(rng, rng.choice(lens))} {caps(32)}")
+                else:
+                    for _ in range(rng.randrange(0, 3)): h.op(f"sigupd @{k} {data_hex(rng, rng.choice(lens))}")
+                    if rng.random() < 0.2: h.op(f"sign @{k} {data_hex(rng, 5)} 300")
+                    for _ in range(rng.randrange(1, 3)): h.op(f"sigfinal @{k} {caps(32)}")
+            else:
+                if rng.random() < 0.5: h.op(f"verify @{k} {data_hex(rng, 9)} {data_hex(rng, rng.choice([8, 16, 20, 32, 64, 31]))}")
+                else:
+                    h.op(f"verupd @{k} {data_hex(rng, 9)}"); h.op(f"verfinal @{k} {data_hex(rng, rng.choice([8, 16, 20, 32, 64]))}")
+        elif r < 0.72:      # digest
+            mech = rng.choice(DIGESTS)
+            h.op(f"diginit @{k} {mech:x}")
+            if rng.random() < 0.5:
+                for _ in range(rng.randrange(1, 3)): h.op(f"digest @{k} {data_hex(rng, rng.choice(lens))} {caps(32)}")
+            else:
+                for _ in range(rng.randrange(0, 3)): h.op(f"digupd @{k} {data_hex(rng, rng.choice(lens))}")
+                for _ in range(rng.randrange(1, 3)): h.op(f"digfinal @{k} {caps(32)}")
+        elif r < 0.90 and "rsa" in keys:   # asymmetric
+            c = rng.random()
+            if c < 0.35:
+                mech = rng.choice(["1", "40", "3", "e:pss(220,1,20)", "43:pss(250,2,32)"])
+                h.op(f"siginit @{k} {mech} @{keys['rsa']}.1")
+                if rng.random() < 0.6:
+                    for _ in range(rng.randrange(1, 3)): h.op(f"sign @{k} {data_hex(rng, rng.choice([5, 20, 32, 128, 129]))} {caps(128)}")
+                else:
+                    h.op(f"sigupd @{k} {data_hex(rng, 10)}"); h.op(f"sigfinal @{k} {caps(128)}"); h.op(f"sigfinal @{k} 300")
+            elif c < 0.55:
+                key, mech, sz = rng.choice([("ec", "1041", 64), ("ed", "1057", 64)])
+                h.op(f"siginit @{k} {mech} @{keys[key]}.1")
+                for _ in range(rng.randrange(1, 3)): h.op(f"sign @{k} {data_hex(rng, 32)} {caps(sz)}")
+            elif c < 0.8:
+                mech = rng.choice(["1", "3", "9:oaep(220,1,)"])
+                h.op(f"encinit @{k} {mech} @{keys['rsa']}")
+                for _ in range(rng.randrange(1, 3)): h.op(f"enc @{k} {data_hex(rng, rng.choice([0, 5, 64, 117, 118, 128, 129]))} {caps(128)}")
+                if rng.random() < 0.3: h.op(f"encupd @{k} 00 300"); h.op(f"encfinal @{k} 300")
+            else:
+                h.op(f"decinit @{k} {rng.choice(['1', '3'])} @{keys['rsa']}.1")
+                h.op(f"dec @{k} {data_hex(rng, rng.choice([128, 128, 127, 5]))} {caps(128)}")
+        else:               # wrong-state calls
+            h.op(rng.choice([f"encfinal @{k} 300", f"decupd @{k} 00 300", f"sigfinal @{k} 300", f"digfinal @{k} 300", f"sign @{k} 00 300",
+                             f"findinit @{k}", f"findfinal @{k}", f"verfinal @{k} 00", f"digupd @{k} 00", f"enc @{k} 00 300"]))
+    h.op("fini")
+    return h.text()
+
+
+# ---------------------------------------------------------------------------------------------------------
+# C07: the complete start matrix
+# ---------------------------------------------------------------------------------------------------------
+ALL_START_MECHS = sorted(set(
+    [0x121, 0x122, 0x125, 0x132, 0x133, 0x136, 0x1081, 0x1082, 0x1085, 0x1086, 0x1087,          # symmetric ciphers
+     0x211, 0x221, 0x256, 0x251, 0x261, 0x271, 0x138, 0x108A,                                   # MACs
+     0x1, 0x3, 0x9, 0x5, 0x6, 0x46, 0x40, 0x41, 0x42, 0xD, 0xE, 0x47, 0x43, 0x44, 0x45,         # RSA
+     0x11, 0x12, 0x13, 0x14, 0x15, 0x16, 0x1041, 0x1057,                                        # DSA, ECDSA, EdDSA
+     0x999, 0x1080, 0x250, 0x2109, 0x1050]))                                                    # not dispatched by the start functions
+
+MECH_PARAM = {0x122: ":" + "00" * 8, 0x125: ":" + "00" * 8, 0x133: ":" + "00" * 8, 0x136: ":" + "00" * 8,
+              0x1082: ":" + "00" * 16, 0x1085: ":" + "00" * 16, 0x1086: ":ctr(128," + "00" * 16 + ")", 0x1087: ":gcm(" + "ab" * 12 + ",,128)",
+              0x9: ":oaep(220,1,)", 0xD: ":pss(220,1,20)", 0xE: ":pss(220,1,20)", 0x47: ":pss(255,5,28)", 0x43: ":pss(250,2,32)",
+              0x44: ":pss(260,3,48)", 0x45: ":pss(270,4,64)"}
+
+
+def c07_matrix(cfg_line, seed=1, sample=None):
+    """operation x key kind x usage flag x mechanism x allowed list, for one slots.mechanisms configuration"""
+    rng = random.Random(seed)
+    h = OpsGen(rng)
+    h.op(f"cfgmechs {cfg_line}")
+    h.prologue(1)
+    t = h.toks[0]
+    k = h.open(t, True); h.login(k, t, 'user')
+    U = ul
+    half = ALL_START_MECHS[::2]
+    other = ALL_START_MECHS[1::2]
+    lists = {"none": "", "A": " 40000600=" + "".join(U(m) for m in half), "B": " 40000600=" + "".join(U(m) for m in other)}
+    keys = []      # (ref, kind)
+    for flag in (0, 1):
+        f = f"{flag:02x}"
+        sec_flags = f"104={f} 105={f} 108={f} 10a={f}"
+        for ln, lt in lists.items():
+            for nm, kt, val in (("aes", 0x1f, "0f" * 16), ("des3", 0x15, "0123456789abcdef" * 3), ("des2", 0x14, "0123456789abcdef" * 2),
+                                ("generic", 0x10, "5a" * 64), ("sha256hmac", 0x2b, "5a" * 64), ("sha1hmac", 0x28, "5a" * 64)):
+                i = h.op(f"create @{k} 0={U(4)} 100={U(kt)} 3={hx(h.new_label())} 11={val} {sec_flags}{lt}"); h.minted += 1
+                keys.append((f"@{i}", nm))
+            pub = f"104={f} 10a={f}"; prv = f"105={f} 108={f}"
+            i = h.op(f"genpair @{k} 0 121={U(1024)} 122=010001 3={hx(h.new_label())} {pub}{lt} / 3={hx(h.new_label())} {prv} 2=01{lt}"); h.minted += 2
+            keys += [(f"@{i}", "rsapub"), (f"@{i}.1", "rsapriv")]
+            i = h.op(f"genpair @{k} 1040 180={P256} 3={hx(h.new_label())} 10a={f}{lt} / 3={hx(h.new_label())} 108={f} 2=01{lt}"); h.minted += 2
+            keys += [(f"@{i}", "ecpub"), (f"@{i}.1", "ecpriv")]
+            i = h.op(f"genpair @{k} 1055 180={ED25519} 3={hx(h.new_label())} 10a={f}{lt} / 3={hx(h.new_label())} 108={f} 2=01{lt}"); h.minted += 2
+            keys += [(f"@{i}", "edpub"), (f"@{i}.1", "edpriv")]
+    cells = [(opn, key, m) for opn in ("encinit", "decinit", "siginit", "verinit") for key, _ in keys for m in ALL_START_MECHS]
+    if sample is not None: cells = rng.sample(cells, min(sample, len(cells)))
+    for opn, key, m in cells:
+        s = h.op(f"open t:{hx(t.label)} 6"); h.minted += 1
+        h.op(f"{opn} @{s} {m:x}{MECH_PARAM.get(m, '')} {key}")
+        h.op(f"close @{s}")
+    # the entry points without a key
+    for m in sorted(set(ALL_START_MECHS + [0x210, 0x220, 0x255, 0x250, 0x260, 0x270, 0x130, 0x131, 0x350, 0x0, 0x1040, 0x1055, 0x10, 0x2000])):
+        s = h.op(f"open t:{hx(t.label)} 6"); h.minted += 1
+        h.op(f"diginit @{s} {m:x}")
+        h.op(f"genkey @{s} {m:x} 3={hx(h.new_label())} 161={U(16)}"); h.minted += 1
+        h.op(f"genpair @{s} {m:x} 121={U(1024)} 180={P256} 3={hx(h.new_label())} / 3={hx(h.new_label())}"); h.minted += 2
+        h.op(f"close @{s}")
+    h.op("mechlist t:" + hx(t.label))
+    h.op("fini")
+    return h.text()
+
+
+# ---------------------------------------------------------------------------------------------------------
+# C12: every call order of a small alphabet, per mechanism profile
+# ---------------------------------------------------------------------------------------------------------
+def c12_profiles():
+    P = []
+    for mech, pm, key, bs in ((0x1081, "", "aes", 16), (0x1082, ":" + "00" * 16, "aes", 16), (0x1085, ":" + "11" * 16, "aes", 16),
+                              (0x1086, ":ctr(128," + "00" * 16 + ")", "aes", 16), (0x1087, ":gcm(" + "ab" * 12 + ",aa55,128)", "aes", 16),
+                              (0x136, ":" + "33" * 8, "des3", 8), (0x132, "", "des3", 8)):
+        for enc in (True, False):
+            pre = "enc" if enc else "dec"
+            P.append(dict(name=f"{pre}-{mech:x}", init=f"{pre}init @K {mech:x}{pm} @{key}",
+                          single=[f"{pre} @K {'5c' * 16} n", f"{pre} @K {'5c' * 16} 3", f"{pre} @K {'5c' * 16} 80"],
+                          upd=[f"{pre}upd @K {'a1' * 5} n", f"{pre}upd @K {'a1' * 5} 80", f"{pre}upd @K {'b2' * 16} 7", f"{pre}upd @K {'b2' * 16} 80",
+                               f"{pre}upd @K {'c3' * 27} 80"],
+                          final=[f"{pre}final @K n", f"{pre}final @K 3", f"{pre}final @K 80"],
+                          other=["diginit @K 250", "digfinal @K 80", "findinit @K"]))
+    for mech, key, sz in (("251", "hmac", 32), ("108a", "aes", 16), ("1", "rsa.1", 128), ("40", "rsa.1", 128), ("43:pss(250,2,32)", "rsa.1", 128),
+                          ("1041", "ec.1", 64), ("1057", "ed.1", 64)):
+        P.append(dict(name=f"sign-{mech.split(':')[0]}", init=f"siginit @K {mech} @{key}",
+                      single=[f"sign @K {'5c' * 20} n", f"sign @K {'5c' * 20} {sz - 1}", f"sign @K {'5c' * 20} 300"],
+                      upd=[f"sigupd @K {'a1' * 5}", f"sigupd @K ."],
+                      final=["sigfinal @K n", f"sigfinal @K {sz - 1}", "sigfinal @K 300"],
+                      other=["encinit @K 1081 @aes", "encfinal @K 80", "verfinal @K 00", f"verify @K 00 {'00' * sz}"]))
+    for mech, key, sz in (("251", "hmac", 32), ("40", "rsa", 128), ("1041", "ec", 64)):
+        P.append(dict(name=f"verify-{mech}", init=f"verinit @K {mech} @{key}",
+                      single=[f"verify @K {'5c' * 20} {'00' * sz}", f"verify @K {'5c' * 20} 00", f"verify @K - {'00' * sz}"],
+                      upd=[f"verupd @K {'a1' * 5}", "verupd @K -"],
+                      final=[f"verfinal @K {'00' * sz}", "verfinal @K 00", "verfinal @K -"],
+                      other=["siginit @K 251 @hmac", "sigfinal @K 80", "sign @K 00 300"]))
+    for mech, sz in (("250", 32), ("220", 20)):
+        P.append(dict(name=f"digest-{mech}", init=f"diginit @K {mech}",
+                      single=[f"digest @K {'5c' * 20} n", f"digest @K {'5c' * 20} {sz - 1}", f"digest @K {'5c' * 20} 300"],
+                      upd=[f"digupd @K {'a1' * 5}", "digupd @K -", "digkey @K @hmac", "digkey @K @aes_nouse"],
+                      final=["digfinal @K n", f"digfinal @K {sz - 1}", "digfinal @K 300"],
+                      other=["decinit @K 1081 @aes", "decfinal @K 80", "sigupd @K 00"]))
+    for mech, key in (("1", "rsa"), ("9:oaep(220,1,)", "rsa"), ("3", "rsa")):
+        P.append(dict(name=f"rsaenc-{mech.split(':')[0]}", init=f"encinit @K {mech} @{key}",
+                      single=[f"enc @K {'5c' * 20} n", f"enc @K {'5c' * 20} 127", f"enc @K {'5c' * 20} 300", f"enc @K {'5c' * 129} 300"],
+                      upd=[f"encupd @K {'a1' * 5} 300"], final=["encfinal @K 300", "encfinal @K n"],
+                      other=["decinit @K 1 @rsa.1", f"dec @K {'00' * 128} 300"]))
+    for mech in ("1", "3"):
+        P.append(dict(name=f"rsadec-{mech}", init=f"decinit @K {mech} @rsa.1",
+                      single=[f"dec @K {'5c' * 128} n", f"dec @K {'00' * 127 + '02'} 300", f"dec @K {'5c' * 128} 127", f"dec @K {'5c' * 20} 300"],
+                      upd=[f"decupd @K {'a1' * 5} 300"], final=["decfinal @K 300", "decfinal @K n"],
+                      other=["encinit @K 1 @rsa", f"enc @K {'00' * 20} 300"]))
+    P.append(dict(name="find", init="findinit @K", single=["find @K 1", "find @K 0"], upd=["find @K 3"], final=["findfinal @K"],
+                  other=["diginit @K 250", "digfinal @K 80", "encinit @K 1081 @aes", "encfinal @K 80"]))
+    return P
+
+
+def c12_smallscope(seed, depth, profiles=None, sample=None):
+    """for every profile: every sequence of `depth` calls of its alphabet, after nothing and after a successful init, each in a fresh session"""
+    import itertools
+    rng = random.Random(seed)
+    h = OpsGen(rng)
+    h.prologue(1)
+    t = h.toks[0]
+    k1 = h.open(t, True); h.login(k1, t, 'user')
+    keys = h.setup_keys(k1, t, rsa=True)
+    def subst(line, s):
+        out = []
+        for w in line.split():
+            if w == "@K": w = f"@{s}"
+            elif w.startswith("@") and w[1:].split(".")[0] in keys:
+                nm, _, sub = w[1:].partition("."); w = f"@{keys[nm]}" + (f".{sub}" if sub else "")
+            out.append(w)
+        return " ".join(out)
+    profs = c12_profiles()
+    if profiles is not None: profs = [p for p in profs if p["name"] in profiles]
+    n = 0
+    for p in profs:
+        alpha = [p["init"]] + p["single"] + p["upd"] + p["final"] + p["other"]
+        seqs = [pre + list(s) for pre in ([], [p["init"]]) for s in itertools.product(alpha, repeat=depth)]
+        if sample is not None and len(seqs) > sample: seqs = rng.sample(seqs, sample)
+        for s in seqs:
+            k = h.op(f"open t:{hx(t.label)} 6"); h.minted += 1
+            for c in s:
+                if c.startswith("findinit"): h.op(subst(c, k)); 
+                else: h.op(subst(c, k))
+            h.op(f"close @{k}")
+            n += 1
+    h.op("fini")
+    return h.text(), n
